@@ -64,7 +64,7 @@ theorem alias_arms (n : Nat) (ih : Sound cfg sfh n) (al : Ty) (kt : Ty) (hal : a
     (h : (match b with
        | .array e' r' => Rng.pos.sub r' && (decide (r'.hi ≤ 0) || asg cfg sfh al e')
        | .tuple ts' g' => Rng.pos.sub (tupleSize ts' g') &&
-           (if (tupleSize ts' g').hi ≤ 0 then true else if ts'.isEmpty then asg cfg sfh al .any else asgAllR cfg sfh al ts')
+           (if (tupleSize ts' g').hi ≤ 0 then true else if ts'.isEmpty then asg cfg sfh al .any else tupZip cfg sfh [al] ts' (tupleSize ts' g').hi)
        | .hash k' v' r' => Rng.pos.sub r' && (decide (r'.hi ≤ 0) || (asg cfg sfh kt k' && asg cfg sfh al v'))
        | .struct ms' => Rng.pos.sub (structSize ms') && (ms'.all fun m => asg cfg sfh al m.2.2)
        | _ => false) = true)
@@ -146,7 +146,7 @@ theorem alias_arms (n : Nat) (ih : Sound cfg sfh n) (al : Ty) (kt : Ty) (hal : a
       exact ih al .any x (by simp [Ty.w]; omega) ⟨fal, by unfold Ty.Frag; trivial, wal, by unfold Ty.WF; trivial, by unfold Ty.US; trivial, ok.elems x hx, tv.elems x hx⟩ h2 (by unfold inst; rfl)
     · have hne : ¬ (ts'.isEmpty = true) := by simp [List.isEmpty_iff, hts]
       rw [if_neg hne] at h2
-      have hall := (asgAllR_iff cfg sfh al ts').1 h2
+      have hall := (tupZipL_iff cfg sfh al ts' _ hts).1 h2
       have hzip : instZip cfg sfh ts' vs = true := by
         rcases hi.2 with h3 | h3
         · exact absurd h3 hne
@@ -159,7 +159,9 @@ theorem alias_arms (n : Nat) (ih : Sound cfg sfh n) (al : Ty) (kt : Ty) (hal : a
       have ht := List.getElem?_eq_getElem hlen
       have hm : ts'[min i (ts'.length - 1)] ∈ ts' := List.getElem_mem hlen
       have hix := hzip i _ x ht (by rw [List.getElem?_eq_getElem hlt, hget])
-      exact ih al _ x (by have := Ty.w_lt_wl hm; omega) ⟨fal, fb _ hm, wal, wb _ hm, us' _ hm, ok.elems x hx, tv.elems x hx⟩ (hall _ hm) hix
+      have hreach : ((min i (ts'.length - 1) : Nat) : Int) < (tupleSize ts' g').hi := by
+        have := hi.1; simp [Rng.contains] at this; omega
+      exact ih al _ x (by have := Ty.w_lt_wl hm; omega) ⟨fal, fb _ hm, wal, wb _ hm, us' _ hm, ok.elems x hx, tv.elems x hx⟩ (hall _ _ hreach ht) hix
   · -- struct
     rename_i ms'
     unfold Ty.Frag at fb; unfold Ty.WF at wb; unfold Ty.US at us
